@@ -126,7 +126,9 @@ def run_tlc(work, module, cfg, workers=None, env_extra=None, timeout=900, extra=
     jopts = ["-Xmx" + heap, "-XX:+UseParallelGC", "-Djava.io.tmpdir=" + meta]
     if deque:
         jopts.append("-Dtlc2.tool.queue.IStateQueue=StateDeque")
-    cmd = ["java"] + jopts + ["-cp", TLA_CP, "tlc2.TLC", "-metadir", meta, "-config", cfg,
+    # -noGenerateSpecTE: instances that are expected to violate (adversarial models, switches set the old way) must not litter
+    # /verif/spec with trace-explorer modules
+    cmd = ["java"] + jopts + ["-cp", TLA_CP, "tlc2.TLC", "-noGenerateSpecTE", "-metadir", meta, "-config", cfg,
                               "-workers", str(workers or "auto")]
     if simulate:
         cmd += ["-simulate", simulate]
